@@ -300,9 +300,12 @@ class RegionGeom:
     def find_lat_long_along_traj(self, dist_along_traj):
         # Compute xyz-coordinates in ENU frame of los between detector and spot on the ground
 
-        xPath_v = dist_along_traj * np.sin(self.thetas()) * np.cos(self.phis())
+        # The azimuth phiTrSubV is measured from the direction opposite to the horizontal
+        # projection of the local normal (costhetaTrSubN = cos*cos - sin*sin*cos(phi) in
+        # throw()); in this frame that direction is -y.
+        xPath_v = dist_along_traj * np.sin(self.thetas()) * np.sin(self.phis())
 
-        yPath_v = dist_along_traj * np.sin(self.thetas()) * np.sin(
+        yPath_v = -dist_along_traj * np.sin(self.thetas()) * np.cos(
             self.phis()
         ) + self.earth_radius * np.cos(self.valid_elevAngVSubN())
 
